@@ -74,10 +74,7 @@ def run_compact(cfg):
         l, m, r = z3.Reals('l m r')
         span = 4 if cls != 'Fbank' else 2      # Fbank: every bin adds log/exp axiom instances (mel), keep the filter narrow
         c.assume(0 <= l, l < m, m < r, r <= rate / 2, (r - l) * width <= span * rate)
-        b = T.__new__(T)
-        b._rate = rate
-        b._analytic = analytic
-        b._vertices = (SReal(l), SReal(m), SReal(r))
+        b = fc.handbuilt(ns, cls, _rate=rate, _analytic=analytic, _vertices=(SReal(l), SReal(m), SReal(r)))
         try:
             start, tr = b.get_truncated_response(0, width)
             full = b.get_frequency_response(0, width)
@@ -198,8 +195,7 @@ class WNP(fc.FNP):
 def _mk_bank(ns, cls):
     """hand-built single-filter instance: centre, std/alpha and the effective support are symbolic reals"""
     c = Ctx.cur
-    C = ns[cls]
-    b = C.__new__(C)
+    b = fc.handbuilt(ns, cls)
     xi, lo, hi, wrap = z3.Real('xi'), z3.Real('lowest_ang'), z3.Real('highest_ang'), z3.Real('wrap_support_ang')
     c.assume(lo < xi, xi < hi, xi >= 0, xi <= rv(math.pi), lo >= rv(-2 * math.pi), hi <= rv(4 * math.pi), wrap > 0)
     b._rate = 8000
@@ -300,14 +296,9 @@ def run_pure(cfg):
 
             def mk():
                 if cls in ('TriangularOverlappingFilterBank', 'Fbank'):
-                    T = ns[cls]
-                    b = T.__new__(T)
-                    b._rate = 8000
-                    b._analytic = False
                     l, m, r = z3.Reals('l m r')
                     c.assume(0 <= l, l < m, m < r, r <= 4000, (r - l) * 65 <= 2 * 8000)
-                    b._vertices = (SReal(l), SReal(m), SReal(r))
-                    return b
+                    return fc.handbuilt(ns, cls, _rate=8000, _analytic=False, _vertices=(SReal(l), SReal(m), SReal(r)))
                 b, xi, lo, hi, wrap = _mk_bank(ns, cls)
                 c.assume((hi - lo) * 65 <= 2 * rv(2 * math.pi), lo >= 0, hi <= rv(math.pi))
                 return b
@@ -398,10 +389,7 @@ def replay(w):
             return {'reproduced': False, 'detail': 'pure'}
         if k == 'compact':
             verts = (w['l'], w['m'], w['r'])
-            b = C.__new__(C)
-            b._rate = 8000
-            b._analytic = w['analytic']
-            b._vertices = verts
+            b = fc.real_handbuilt(C, _rate=8000, _analytic=w['analytic'], _vertices=verts)
             width = w['width']
             bi, tr, full = _rebuild(b, 0, width)
             ref = b.get_frequency_response(0, width)
